@@ -24,6 +24,23 @@ def sh(cmd, cwd, env=None, timeout=None):
     return subprocess.run(cmd, cwd=cwd, env=env or ENV, stdout=subprocess.PIPE, stderr=subprocess.STDOUT, text=True, timeout=timeout)
 
 
+def sh_group(cmd, cwd, env, timeout):
+    """Like sh(), but in its own process group, so that the whole tree (cargo -> cargo-miri -> miri) is
+    killed when the time limit is hit. Returns (completed process or None on timeout, output)."""
+    import signal
+    p = subprocess.Popen(cmd, cwd=cwd, env=env, stdout=subprocess.PIPE, stderr=subprocess.STDOUT, text=True, start_new_session=True)
+    try:
+        out, _ = p.communicate(timeout=timeout)
+        return p, out
+    except subprocess.TimeoutExpired:
+        try:
+            os.killpg(p.pid, signal.SIGKILL)
+        except OSError:
+            pass
+        out, _ = p.communicate()
+        return None, out
+
+
 def build(log):
     r = sh(["cargo", "build", "--release", "--offline"], THREADS_DIR)
     if r.returncode != 0:
@@ -116,7 +133,26 @@ def run_l3(prop, tier, seed, log):
     for wl in workloads:
         flags = "-Zmiri-many-seeds=0..%d -Zmiri-preemption-rate=0.05" % nseeds
         cmd = ["cargo", "+nightly", "miri", "run", "--offline", "--", mode, str(wl), str(execs), "2", "3"]
-        r = sh(cmd, MIRI_DIR, env=dict(ENV, MIRIFLAGS=flags))
+        # a normal invocation takes seconds (quick) to a few minutes (thorough); an endless loop of
+        # the code under test (e.g. a cyclic ready queue) never ends under the interpreter
+        limit = 600 if tier == "quick" else 5400
+        t1 = time.time()
+        pr, out = sh_group(cmd, MIRI_DIR, dict(ENV, MIRIFLAGS=flags), limit)
+        if pr is None:
+            path = os.path.join(REPLAYS, "%s-l3-%s-wl%d-hang.miri.txt" % (prop, mode, wl))
+            os.makedirs(REPLAYS, exist_ok=True)
+            with open(path, "w") as f:
+                f.write("# layer=L3\n# mode=%s\n# workload=%d\n# executions=%d\n# failure=no result within %d s (earlier workloads of this run took %.0f s each): endless loop or livelock of the code under test under Miri\n" % (mode, wl, execs, limit, (t1 - t0) / max(1, workloads.index(wl))))
+                f.write("# replay: cd %s && MIRIFLAGS='%s' cargo +nightly miri run --offline -- %s %d %d 2 3\n" % (MIRI_DIR, flags, mode, wl, execs))
+                f.write(out[-4000:])
+            log("VIOLATION property=%s replay=%s" % (prop, path))
+            log("  L3 (Miri, std threads) workload=%d: no result within %d s - endless loop or livelock of the code under test" % (wl, limit))
+            return 1, {"layer": "L3 fbmiri under Miri", "interpretations": ran, "violation": "hang", "wall_s": round(time.time() - t0, 1)}
+
+        class _R:
+            pass
+        r = _R()
+        r.stdout, r.returncode = out, pr.returncode
         if "could not compile" in r.stdout:
             log(r.stdout[-3000:])
             log("HARNESS-ERROR: fbmiri does not build against /repo's working tree")
@@ -233,7 +269,16 @@ def replay(path, log):
     if not m:
         log("HARNESS-ERROR: no replay command in file")
         return 2
-    r = subprocess.run(m.group(1), shell=True, env=ENV, stdout=subprocess.PIPE, stderr=subprocess.STDOUT, text=True)
+    hang = "# failure=no result within" in text
+    pr, out = sh_group(["bash", "-c", m.group(1)], VERIF, ENV, 1200 if hang else 7200)
+    if pr is None:
+        print("REPRODUCED: no result within the time limit (endless loop or livelock)" if hang else "NOT-REPRODUCED: the replay did not finish within 2 h")
+        return 1 if hang else 0
+
+    class _R:
+        pass
+    r = _R()
+    r.stdout = out
     failed, first, _ = miri_verdict(r.stdout)
     if failed:
         print("REPRODUCED: %s" % first)
